@@ -577,7 +577,12 @@ func jsonProp() engine.AnyProp {
 					}
 					return f
 				}
-				c.Snaps = append(c.Snaps, asset.Snapshot{Date: genTime(t, "d", rapid.Bool().Draw(t, "dayonly")), Open: fin("o"), High: fin("h"), Low: fin("l"), Close: fin("c"), Volume: fin("v")})
+				d := genTime(t, "d", rapid.Bool().Draw(t, "dayonly"))
+				if rapid.IntRange(0, 2).Draw(t, "subsecond") == 1 {
+					// a tick timestamp: milliseconds or nanoseconds
+					d = d.Add(time.Duration(rapid.SampledFrom([]int64{1, 999, 123000000, 123456789, 999999999}).Draw(t, "ns")))
+				}
+				c.Snaps = append(c.Snaps, asset.Snapshot{Date: d, Open: fin("o"), High: fin("h"), Low: fin("l"), Close: fin("c"), Volume: fin("v")})
 			}
 			return c
 		},
